@@ -54,6 +54,11 @@ Definition init_cache_capacity (cache_size : nat) : option nat :=
   match cache_size with O => None | S _ => Some cache_size end.
 Definition init_enabled (cache_size : nat) : bool := match cache_size with O => false | S _ => true end.
 
+(* cache_purge_level: accepted values; what the `finally:` of __init__ deletes once the result is built *)
+Definition purge_level_accepted (level : nat) : bool := Nat.leb level 2.
+Definition purge_deletes_cache (level : nat) : bool := match level with O => false | S _ => true end.
+Definition purge_clears_object (level : nat) : bool := Nat.eqb level 2.
+
 (* a run written with the HASHES of its memoised calls (what the two methods receive), to be evaluated with any
    implementation of the two methods *)
 Section HProg.
